@@ -1238,7 +1238,7 @@ func init() {
 	register(&Check{
 		ID:          "C01",
 		Run:         runC01,
-		Explanation: "Decides structural necessary conditions of 'a failed or aborted operation never damages or leaves files': (R1 PAIR) for every call site of a staging acquisition (api.openStagedOutput*, cli.streamInOutForOperation, cli.readSeekerFromStdin, cli.create*StreamOutput, pdfcpu.createWriteFile/createStagedFile/openStagedFile, the raw createTemp/openExclusive operations, the cut writer's createTemp): on every CFG path from the acquisition's success edge a disposal (cleanup/commit/finalize/finish*/remove) is executed or registered with defer before every return and before every call that can run document-processing code or caller-supplied callbacks (so a panic cannot skip it); functions that hand the resource to their caller are listed as owners and must dispose on every failure return; (R2 FLAG) a publishing call (commit / finishWriteFile / finalize) inside a deferred closure must be control-dependent on a captured local bool that starts false and is set true only after the last call that can fail or panic — a test of the error variable is rejected because a panic leaves it nil; (R3 WMC) destructive filesystem primitives (os.Create/WriteFile/Truncate/OpenFile with a write flag/Rename/Remove/RemoveAll/Chmod/CreateTemp/MkdirTemp/Mkdir*/Link/Symlink, fileutil.ReplaceFile/RemoveFile) and calls through operation-table fields bound to them occur only in the functions of the staging-layer table (one reason per entry) or the not-a-document-output table; (R4) inside the disposal routines every failure return after the temp exists passes the temp removal. NOT decided: that untouched bytes stay unchanged (follows from R3 but is not observed), OS call behaviour, multi-output policy of split/cut (earlier completed outputs are kept by documented design), error texts.",
+		Explanation: "Decides structural necessary conditions of 'a failed or aborted operation never damages or leaves files': (R1 PAIR) for every call site of a staging acquisition (api.openStagedOutput*, cli.streamInOutForOperation, cli.readSeekerFromStdin, cli.create*StreamOutput, pdfcpu.createWriteFile/createStagedFile/openStagedFile, the raw createTemp/openExclusive operations, the cut writer's createTemp): on every CFG path from the acquisition's success edge a disposal (cleanup/commit/finalize/finish*/remove) is executed or registered with defer before every return and before every call that can run document-processing code or caller-supplied callbacks (so a panic cannot skip it); functions that hand the resource to their caller are listed as owners and must dispose on every failure return; (R2 FLAG) a publishing call (commit / finishWriteFile / finalize) inside a deferred closure must be control-dependent on a captured local bool that starts false and is set true only after the last call that can fail or panic — a test of the error variable is rejected because a panic leaves it nil; (R3 WMC) destructive filesystem primitives (os.Create/WriteFile/Truncate/OpenFile with a write flag/Rename/Remove/RemoveAll/Chmod/CreateTemp/MkdirTemp/Mkdir*/Link/Symlink, fileutil.ReplaceFile/RemoveFile) and calls through operation-table fields bound to them occur only in the functions of the staging-layer table (one reason per entry) or the not-a-document-output table; (R4) inside the disposal routines every failure return after the temp exists passes the temp removal. R1 also covers the attachment-extraction reservations: reserveAttachmentOutputs hands the list of O_EXCL reservation files created so far back to its caller on every return after a creation (also with an error), and the caller releases it on the error path and by defer. NOT decided: that untouched bytes stay unchanged (follows from R3 but is not observed), OS call behaviour, multi-output policy of split/cut (earlier completed outputs are kept by documented design), error texts.",
 		Rules: []string{
 			"C01.R1 PAIR: acquisition -> disposal on all exits, deferred before any call that can panic",
 			"C01.R2 FLAG: deferred publish keyed on a completion flag with set-last discipline",
